@@ -227,9 +227,18 @@ def permutations(rnd, acc):
     kind = rnd.choice(["named", "sub"])
     subs = rnd.sample(names, min(len(names), 3))
     objs = rnd.sample(names, min(len(names), 3))
-    cfg = {"verb": rnd.choice(rrule.VERBS), "dir": rnd.choice(rrule.DIRS), "exc": rnd.random() < 0.5, "subs": [(kind, s) for s in subs], "objs": [(kind, o) for o in objs], "anything": rnd.random() < 0.1}
+    cfg = {"verb": rnd.choice(rrule.VERBS), "dir": rnd.choice(rrule.DIRS), "exc": rnd.random() < 0.5, "subs": [(kind, s) for s in subs], "objs": [(kind, o) for o in objs], "anything": rnd.random() < 0.25}
     if cfg["anything"]:
         cfg.update(verb="should_not", objs=[])
+        from ..refmodel.names import is_ancestor as _anc
+
+        nested = [(a, b) for a in names for b in names if _anc(a, b)]
+        if nested and rnd.random() < 0.7:
+            # subjects that contain one another (the rule collapses them, whatever order they are listed in)
+            a, b = rnd.choice(nested)
+            rest = [n for n in names if n not in (a, b)]
+            cfg["subs"] = [(kind, x) for x in [a, b] + rnd.sample(rest, min(len(rest), rnd.randint(0, 2)))]
+            acc.count("permuted_anything_rules_with_nested_subjects")
     case = {"kind": "permutation", "mods": mods, "imps": imps, "cfg": cfg}
     HUB.case = case
     base = run(mk_rule(cfg), ev)
@@ -490,7 +499,7 @@ def replay(case, acc):
 
 def floors(acc, tier):
     why = []
-    for c, n in (("purity_snapshots", 5000), ("history_comparisons", 3000), ("interleavings", 50), ("re_applications", 500), ("evaluations_on_another_architecture", 100), ("layer_rule_reapplied_with_unmentioned_regex_layer", 100), ("enumeration_trees_with_symlinked_package", 5), ("enumeration_trees_with_file_beside_package", 5), ("argument_permutations", 300), ("enumerations_shuffled", 50), ("hash_seed_runs", 8), ("threaded_evaluations", 100)):
+    for c, n in (("purity_snapshots", 5000), ("history_comparisons", 3000), ("interleavings", 50), ("re_applications", 500), ("evaluations_on_another_architecture", 100), ("layer_rule_reapplied_with_unmentioned_regex_layer", 100), ("enumeration_trees_with_symlinked_package", 5), ("enumeration_trees_with_file_beside_package", 5), ("permuted_anything_rules_with_nested_subjects", 20), ("argument_permutations", 300), ("enumerations_shuffled", 50), ("hash_seed_runs", 8), ("threaded_evaluations", 100)):
         if acc.counters[c] < n:
             why.append(f"{c}: only {acc.counters[c]}")
     return why
